@@ -224,6 +224,11 @@ impl ControlHandle {
         // Clean up control channel state.
         self.inner.set_halt(self.config.timeout_duration)?;
         self.inner.clear_halt()?;
+
+        // Use the initial lengths until the device's bootstrap register values are read (again),
+        // the lengths negotiated by a previous connection may not be valid anymore.
+        self.config.maximum_cmd_length = INITIAL_MAXIMUM_CMD_LENGTH;
+        self.config.maximum_ack_length = INITIAL_MAXIMUM_ACK_LENGTH;
         self.initialize_config()
     }
 
